@@ -3,10 +3,22 @@
 ALL = ['C%02d' % i for i in range(1, 21)]
 
 CHECKS = [
+ {"property_id": "C03", "category": "other", "design_ref": "DESIGN.md §4 C03",
+  "technique": "static analysis: continuation-graph extraction from instantiated operator() overloads, graph unreachability and path-sensitive def-use",
+  "text": "The QoS 2 sender's continuation graph is extracted from every instantiation; decided on every feasible path: no PUBLISH state or publish helper is reachable from the states after a successful PUBREC; the PUBREL stage is entered only on the decoded/admitted/non-failing edge with a packet built by encode_pubrel; a re-sent PUBLISH goes through set_dup() exactly when its earlier write had completed; the first transmission is encoded with dup_e::no; re-sends reuse the stored packet object; set_dup's only write is byte0 |= 0x08; PUBREL is always prioritized.",
+  "note": "Graph and paths are those of the instantiated code; timing and the wire history itself are not modelled."},
  {"property_id": "C05", "category": "other", "design_ref": "DESIGN.md §4 C05",
   "technique": "static analysis: linear-use typestate over every CFG path of every instantiated continuation, call-graph reachability, type-driven drain enumeration",
   "text": "Necessary structural conditions decided on every instantiated path: (1) each entry point of the 19 operation classes consumes the operation exactly once on every path (no drop, no double completion), (2) no synchronous call path from a public initiation reaches an inline invocation of a stored handler, (3) every member under client_service whose type can park a completion handler is drained from cancel() or only waits in a wait_for_one group with a drained sibling, (4) queued type-erased handlers are invoked only after leaving their container, (5) run_op/terminal-disconnect/mqtt_client cancel+dup structure. Not decided: that the io_context runs out of work; Asio internals.",
   "note": "Assumes Boost.Asio's documented contracts (initiations complete once and never inline, post/defer asynchronous, wait_for_one cancels the loser); the operation-class table and idiom tables in rules/c05.py."},
+ {"property_id": "C07", "category": "other", "design_ref": "DESIGN.md §4 C07",
+  "technique": "static analysis: who-may-write, guard dominance in the batch builder, per-path constant evaluation of send flags, quota typestate over inlined continuation paths",
+  "text": "Necessary structural conditions of the quota discipline decided on every instantiated path: the counter has exactly three writers and one returner; a throttled request enters a batch only under _quota > 0 paired with --_quota; resend() resets limit and quota from the CONNACK before re-queueing; every PUBLISH/PUBREL send carries the right throttled/prioritized bits (evaluated per QoS instantiation and call path); and a completing path returns quota iff it holds quota (try_again = reset by the reconnect). Not decided: the numeric bound over histories.",
+  "note": "Trusts the abstraction 'ec == try_again at a continuation entry means resend() has reset the quota' (established by reading async_sender::resend / replies::resend_unanswered and checked structurally in R-DOM)."},
+ {"property_id": "C08", "category": "other", "design_ref": "DESIGN.md §4 C08",
+  "technique": "static analysis: acquire/release typestate and path-sensitive def-use over inlined continuation paths, who-may-call",
+  "text": "Necessary structural conditions decided on every feasible inlined path of publish(QoS0/1/2)/subscribe/unsubscribe: the allocated id is compared with 0 before any use and the zero edge frees/encodes/sends nothing; free_pid is called exactly once iff the path ends the exchange while holding an id and never on a path that continues it; the id freed, awaited and encoded is the allocated one or packet_id() of the carried packet; only the three request operations may allocate/free. Not decided: uniqueness of what packet_id_allocator::allocate() returns (allocator history).",
+  "note": "The interval arithmetic of packet_id_allocator is out of reach of a static argument here and is explicitly not claimed."},
  {"property_id": "C20", "category": "proof", "design_ref": "DESIGN.md §4 C20",
   "technique": "static analysis: constant-evaluated table extraction vs spec table + dominance/def-use rules on the instantiated lookup",
   "text": "Finite space decided completely and statically: for each of the 9 categories the accepted set of to_reason_code<cat> is exactly the extracted table (in-range search, end check dominates every dereference, equality dominates the accepting return, the element itself is returned), every table is compared row by row with the MQTT 5 tables (admitted ⊆ listed, server-sendable ⊆ admitted, strictly ascending), and each of the call sites uses the category of the packet it handles.",
